@@ -365,8 +365,8 @@ func discharge(ob *Obligation, tier string, timeoutS int) {
 		if a.status != "timeout" {
 			allTimeout = false
 		}
-		if a.status == "error" {
-			st = "error"
+		if a.status == "error" && a.sp.name != "cvc5" {
+			st = "error" // cvc5 rejects some z3-only constructs (arrays indexed by arrays); that is "unknown", not an error
 		}
 	}
 	if allTimeout {
